@@ -52,12 +52,23 @@ const (
 	bbBits       // subset of {A=1, T=2}; 0 = the constant 0
 	bbBuilder    // pointer to the tracked builder
 	bbBuilderVal // the builder loaded as a value (only to initialise another builder variable)
+	bbTuple      // multi-value result of an interpreted call (components in tup)
+	bbClosure    // function literal that captured the tracked builder (clo)
 )
 
 type c08bbVal struct {
 	k    c08bbKind
 	b    bool
 	bits uint8
+	tup  []c08bbVal
+	clo  *c08bbClo
+}
+
+// c08bbClo: a closure created by an interpreted function with the values its
+// free variables were bound to.
+type c08bbClo struct {
+	fn    *ssa.Function
+	binds []c08bbVal
 }
 
 func (v c08bbVal) String() string {
@@ -70,8 +81,32 @@ func (v c08bbVal) String() string {
 		return "B"
 	case bbBuilderVal:
 		return "BV"
+	case bbTuple:
+		return fmt.Sprint(v.tup)
+	case bbClosure:
+		return "C:" + fnName(v.clo.fn) + fmt.Sprint(v.clo.binds)
 	}
 	return "?"
+}
+
+func (v c08bbVal) carriesBuilder() bool {
+	switch v.k {
+	case bbBuilder, bbBuilderVal:
+		return true
+	case bbTuple:
+		for _, e := range v.tup {
+			if e.carriesBuilder() {
+				return true
+			}
+		}
+	case bbClosure:
+		for _, e := range v.clo.binds {
+			if e.carriesBuilder() {
+				return true
+			}
+		}
+	}
+	return false
 }
 
 const (
@@ -120,11 +155,21 @@ type c08bb struct {
 	stack    map[*ssa.Function]bool
 	budget   int
 	exceeded bool
+	// handsOut: in-package functions with a body whose results carry the
+	// builder (by type: *B, B, or a tuple containing one).  A call of such a
+	// function from interpreted code is interpreted too and the builder it
+	// returns — together with the typestate at its return — lives on in the
+	// caller (a helper handing its builder back is not an escape).
+	handsOut map[*ssa.Function]bool
+	// followed: members of handsOut every use of which is a static call from a
+	// function the interpreter analyses; only those may return the builder.
+	followed map[*ssa.Function]bool
 }
 
 type c08bbFrame struct {
 	fn       *ssa.Function
 	isMethod bool
+	root     bool // entered as an analysis root, not through an interpreted call
 	seen     map[string]bool
 	outs     map[string]c08bbOut
 }
@@ -250,8 +295,11 @@ func (a *c08bb) initialState() c08bbState {
 
 // runFn interprets fn from its entry with the given arguments and state and
 // returns the distinct (state, result) pairs at its returns.
-func (a *c08bb) runFn(fn *ssa.Function, args []c08bbVal, st c08bbState) []c08bbOut {
-	mk := fnName(fn) + "(" + fmt.Sprint(args) + ")" + st.key()
+func (a *c08bb) runFn(fn *ssa.Function, args, free []c08bbVal, st c08bbState, root bool) []c08bbOut {
+	mk := fnName(fn) + "(" + fmt.Sprint(args) + fmt.Sprint(free) + ")" + st.key()
+	if root {
+		mk = "root:" + mk
+	}
 	if outs, ok := a.memo[mk]; ok {
 		// keep the caller's trace
 		res := make([]c08bbOut, len(outs))
@@ -267,13 +315,21 @@ func (a *c08bb) runFn(fn *ssa.Function, args []c08bbVal, st c08bbState) []c08bbO
 	}
 	a.stack[fn] = true
 	defer delete(a.stack, fn)
-	fr := &c08bbFrame{fn: fn, isMethod: a.isBuilderMethod(fn), seen: map[string]bool{}, outs: map[string]c08bbOut{}}
+	fr := &c08bbFrame{fn: fn, isMethod: a.isBuilderMethod(fn), root: root, seen: map[string]bool{}, outs: map[string]c08bbOut{}}
 	env := map[ssa.Value]c08bbVal{}
 	for i, pa := range fn.Params {
 		if i < len(args) {
 			env[pa] = args[i]
 			if args[i].k == bbBuilder {
-				a.checkEscape(pa, fn)
+				a.checkEscape(pa, fr)
+			}
+		}
+	}
+	for i, fv := range fn.FreeVars {
+		if i < len(free) {
+			env[fv] = free[i]
+			if free[i].k == bbBuilder {
+				a.checkEscape(fv, fr)
 			}
 		}
 	}
@@ -286,9 +342,21 @@ func (a *c08bb) runFn(fn *ssa.Function, args []c08bbVal, st c08bbState) []c08bbO
 	return outs
 }
 
-// checkEscape: the builder pointer v may only be used to address its fields or
-// be passed to statically known functions with bodies.
-func (a *c08bb) checkEscape(v ssa.Value, fn *ssa.Function) {
+// checkEscape: the builder pointer v may only be used to address its fields, be
+// passed to statically known functions with bodies, be captured by a function
+// literal that is only ever called directly, flow through a phi, or be returned
+// to an interpreted caller (fr is not a root: the caller continues with the
+// returned builder and the state at the return).
+func (a *c08bb) checkEscape(v ssa.Value, fr *c08bbFrame) {
+	a.checkEscapeRec(v, fr, map[ssa.Value]bool{})
+}
+
+func (a *c08bb) checkEscapeRec(v ssa.Value, fr *c08bbFrame, seen map[ssa.Value]bool) {
+	if seen[v] {
+		return
+	}
+	seen[v] = true
+	fn := fr.fn
 	refs := v.Referrers()
 	if refs == nil {
 		return
@@ -298,19 +366,87 @@ func (a *c08bb) checkEscape(v ssa.Value, fn *ssa.Function) {
 		case *ssa.DebugRef, *ssa.FieldAddr:
 		case *ssa.UnOp:
 			// whole-value load: validated where it executes
+		case *ssa.Phi:
+			a.checkEscapeRec(x, fr, seen)
 		case *ssa.Store:
 			if x.Addr != v {
 				a.undecided("C08.blockbit/escape/"+fnName(fn), a.m.p.Pos(r.Pos()), "the block builder pointer is stored; the emitted rule sequence is not fully visible")
 			}
 		case *ssa.Call:
+			if x.Common().Value == v {
+				a.undecided("C08.blockbit/escape/"+fnName(fn), a.m.p.Pos(r.Pos()), "the block builder is used as a function value")
+				continue
+			}
 			sf := calleeFn(x.Common())
 			if sf == nil || sf.Blocks == nil {
 				a.undecided("C08.blockbit/escape/"+fnName(fn), a.m.p.Pos(r.Pos()), "the block builder is passed to a call that cannot be followed; the emitted rule sequence is not fully visible")
+			}
+		case *ssa.MakeClosure:
+			if !c08bbOnlyCalled(x) {
+				a.undecided("C08.blockbit/escape/"+fnName(fn), a.m.p.Pos(r.Pos()), "the block builder is captured by a function literal that is not only called directly; the emitted rule sequence is not fully visible")
+			}
+		case *ssa.Return:
+			if fr.root {
+				a.undecided("C08.blockbit/escape/"+fnName(fn), a.m.p.Pos(r.Pos()), "the block builder is returned to callers the interpreter does not analyse (the function is used other than through static in-package calls); the emitted rule sequence is not fully visible")
 			}
 		default:
 			a.undecided("C08.blockbit/escape/"+fnName(fn), a.m.p.Pos(r.Pos()), fmt.Sprintf("the block builder escapes through %T; the emitted rule sequence is not fully visible", r))
 		}
 	}
+}
+
+// c08bbOnlyCalled: every use of the closure value is a direct call of it.
+func c08bbOnlyCalled(mc *ssa.MakeClosure) bool {
+	refs := mc.Referrers()
+	if refs == nil {
+		return true
+	}
+	for _, r := range *refs {
+		switch x := r.(type) {
+		case *ssa.DebugRef:
+		case *ssa.Call:
+			if x.Common().Value != ssa.Value(mc) {
+				return false
+			}
+			for _, arg := range x.Common().Args {
+				if arg == ssa.Value(mc) {
+					return false
+				}
+			}
+		default:
+			return false
+		}
+	}
+	return true
+}
+
+// c08bbCarrier: t is the builder, a pointer to it, or a tuple with such a component.
+func (a *c08bb) carrier(t types.Type) bool {
+	if tu, ok := t.(*types.Tuple); ok {
+		for i := 0; i < tu.Len(); i++ {
+			if a.carrier(tu.At(i).Type()) {
+				return true
+			}
+		}
+		return false
+	}
+	return types.Identical(derefType(t), a.bt)
+}
+
+// retVal: abstract value of a call result of static type t that the callee's
+// return evaluated to v.
+func (a *c08bb) retVal(results []ssa.Value, env map[ssa.Value]c08bbVal) c08bbVal {
+	switch len(results) {
+	case 0:
+		return c08bbVal{}
+	case 1:
+		return a.eval(results[0], env)
+	}
+	tv := c08bbVal{k: bbTuple}
+	for _, r := range results {
+		tv.tup = append(tv.tup, a.eval(r, env))
+	}
+	return tv
 }
 
 func (a *c08bb) execBlock(fr *c08bbFrame, b, prev *ssa.BasicBlock, st c08bbState, env map[ssa.Value]c08bbVal) {
@@ -370,7 +506,24 @@ func (a *c08bb) execFrom(fr *c08bbFrame, b *ssa.BasicBlock, i int, st c08bbState
 				tr := st.trace
 				st = a.initialState()
 				st.trace = tr
-				a.checkEscape(in, fr.fn)
+				a.checkEscape(in, fr)
+			}
+		case *ssa.Extract:
+			if tv := a.eval(in.Tuple, env); tv.k == bbTuple && in.Index < len(tv.tup) && tv.tup[in.Index].k != bbUnknown {
+				env[in] = tv.tup[in.Index]
+				if env[in].k == bbBuilder {
+					a.checkEscape(in, fr)
+				}
+			} else {
+				delete(env, in)
+			}
+		case *ssa.MakeClosure:
+			clo := &c08bbClo{fn: in.Fn.(*ssa.Function)}
+			for _, bnd := range in.Bindings {
+				clo.binds = append(clo.binds, a.eval(bnd, env))
+			}
+			if v := (c08bbVal{k: bbClosure, clo: clo}); v.carriesBuilder() {
+				env[in] = v
 			}
 		case *ssa.UnOp:
 			if in.Op != token.MUL {
@@ -397,6 +550,9 @@ func (a *c08bb) execFrom(fr *c08bbFrame, b *ssa.BasicBlock, i int, st c08bbState
 					for _, r := range *refs {
 						if _, dbg := r.(*ssa.DebugRef); dbg {
 							continue
+						}
+						if _, isRet := r.(*ssa.Return); isRet && !fr.root {
+							continue // handed back by value to the interpreted caller, which must copy it into a builder variable
 						}
 						if st2, isSt := r.(*ssa.Store); !isSt || st2.Val != ssa.Value(in) || a.eval(st2.Addr, env).k != bbBuilder {
 							okCopy = false
@@ -439,29 +595,39 @@ func (a *c08bb) execFrom(fr *c08bbFrame, b *ssa.BasicBlock, i int, st c08bbState
 				st = a.readEvent(fr, in, n, st, env)
 				continue
 			}
-			var args []c08bbVal
+			var args, free []c08bbVal
 			hasB := false
 			for _, arg := range cc.Args {
 				v := a.eval(arg, env)
 				args = append(args, v)
-				if v.k == bbBuilder {
+				if v.carriesBuilder() {
 					hasB = true
 				}
+			}
+			sf := calleeFn(cc)
+			if cv := a.eval(cc.Value, env); cv.k == bbClosure {
+				// call of a function literal that captured the builder
+				sf, free, hasB = cv.clo.fn, cv.clo.binds, true
+			}
+			if sf != nil && a.followed[sf] {
+				hasB = true // the callee hands a builder back: interpret it, the builder lives on here
 			}
 			if !hasB {
 				continue
 			}
-			sf := calleeFn(cc)
 			if sf == nil || sf.Blocks == nil {
 				continue // reported by checkEscape
 			}
 			if !fr.isMethod && a.isBuilderMethod(sf) {
 				st = a.boundary(st, fnName(sf))
 			}
-			for _, o := range a.runFn(sf, args, st) {
+			for _, o := range a.runFn(sf, args, free, st, false) {
 				env2 := c08bbCopyEnv(env)
 				if o.ret.k != bbUnknown {
 					env2[in] = o.ret
+					if o.ret.k == bbBuilder {
+						a.checkEscape(in, fr)
+					}
 				} else {
 					delete(env2, in)
 				}
@@ -470,7 +636,7 @@ func (a *c08bb) execFrom(fr *c08bbFrame, b *ssa.BasicBlock, i int, st c08bbState
 			return
 		case *ssa.Defer, *ssa.Go:
 			for _, arg := range in.(ssa.CallInstruction).Common().Args {
-				if a.eval(arg, env).k == bbBuilder {
+				if a.eval(arg, env).carriesBuilder() {
 					a.undecided("C08.blockbit/escape/"+fnName(fr.fn), p.Pos(in.Pos()), "the block builder is used in a defer/go statement")
 				}
 			}
@@ -490,9 +656,9 @@ func (a *c08bb) execFrom(fr *c08bbFrame, b *ssa.BasicBlock, i int, st c08bbState
 			a.execBlock(fr, b.Succs[0], b, st, env)
 			return
 		case *ssa.Return:
-			o := c08bbOut{st: st}
-			if len(in.Results) == 1 {
-				o.ret = a.eval(in.Results[0], env)
+			o := c08bbOut{st: st, ret: a.retVal(in.Results, env)}
+			if fr.root && o.ret.carriesBuilder() {
+				a.undecided("C08.blockbit/escape/"+fnName(fr.fn), p.Pos(in.Pos()), "the block builder is returned to callers the interpreter does not analyse; the emitted rule sequence is not fully visible")
 			}
 			fr.outs[o.st.key()+"|"+o.ret.String()] = o
 			return
@@ -761,6 +927,91 @@ func (a *c08bb) readEvent(fr *c08bbFrame, call *ssa.Call, meth string, st c08bbS
 	return st
 }
 
+// findHandOuts computes handsOut (by result type) and followed: the functions
+// of handsOut that are used only as the static callee of calls made from
+// felix/rules functions (at least one), and can therefore be interpreted in the
+// context of every caller.  Any other use (function value, method value or
+// expression, go/defer, a call from another package, a possible interface
+// dispatch to it) leaves the function a root whose Return is an escape.
+func (a *c08bb) findHandOuts() {
+	p, m := a.m.p, a.m
+	a.handsOut, a.followed = map[*ssa.Function]bool{}, map[*ssa.Function]bool{}
+	byObj := map[types.Object]*ssa.Function{}
+	for _, fn := range p.AllFuncs() {
+		if !m.inRP(fn) || fn.Blocks == nil || fn.Signature == nil {
+			continue
+		}
+		if a.carrier(fn.Signature.Results()) {
+			a.handsOut[fn] = true
+			if o := fn.Object(); o != nil {
+				byObj[o] = fn
+			}
+		}
+	}
+	if len(a.handsOut) == 0 {
+		return
+	}
+	calls := map[*ssa.Function]int{}
+	bad := map[*ssa.Function]bool{}
+	target := func(v ssa.Value) *ssa.Function {
+		g, ok := v.(*ssa.Function)
+		if !ok {
+			return nil
+		}
+		if a.handsOut[g] {
+			return g
+		}
+		if o := g.Object(); o != nil && byObj[o] != nil {
+			return byObj[o] // thunk / bound-method wrapper of a hand-out function
+		}
+		return nil
+	}
+	for _, fn := range p.AllFuncs() {
+		if fn.Blocks == nil {
+			continue
+		}
+		for _, b := range fn.Blocks {
+			for _, in := range b.Instrs {
+				if call, ok := in.(*ssa.Call); ok {
+					cc := call.Common()
+					if cc.IsInvoke() {
+						for h := range a.handsOut {
+							if o, ok := h.Object().(*types.Func); ok && o.Name() == cc.Method.Name() && a.carrier(cc.Signature().Results()) {
+								bad[h] = true
+							}
+						}
+					} else if g, isFn := cc.Value.(*ssa.Function); isFn && a.handsOut[g] {
+						if m.inRP(fn) {
+							calls[g]++
+						} else {
+							bad[g] = true
+						}
+						for _, arg := range cc.Args {
+							if t := target(arg); t != nil {
+								bad[t] = true
+							}
+						}
+						continue
+					}
+				}
+				for _, op := range in.Operands(nil) {
+					if op == nil || *op == nil {
+						continue
+					}
+					if t := target(*op); t != nil {
+						bad[t] = true
+					}
+				}
+			}
+		}
+	}
+	for h := range a.handsOut {
+		if calls[h] > 0 && !bad[h] {
+			a.followed[h] = true
+		}
+	}
+}
+
 func c08BlockBits(m *c08Model) {
 	c, p := m.c, m.p
 	obj := p.LookupObj(c08RulesPkg, "matchBlockBuilder")
@@ -788,10 +1039,14 @@ func c08BlockBits(m *c08Model) {
 	if a.allIdx < 0 || a.thisIdx < 0 {
 		c.Lost("matchBlockBuilder.markAllBlocksPass / markThisBlockPass")
 	}
-	// roots: every felix/rules function that creates a builder
+	a.findHandOuts()
+	// roots: every felix/rules function that creates a builder or obtains one
+	// from a followed in-package function — except the followed functions
+	// themselves, which are interpreted in the context of each of their callers
+	// (their exit state continues there).
 	nRoots := 0
 	for _, fn := range p.AllFuncs() {
-		if !m.inRP(fn) || fn.Blocks == nil {
+		if !m.inRP(fn) || fn.Blocks == nil || a.followed[fn] {
 			continue
 		}
 		creates := false
@@ -799,13 +1054,18 @@ func c08BlockBits(m *c08Model) {
 			if al, ok := in.(*ssa.Alloc); ok && types.Identical(derefType(al.Type()), named) {
 				creates = true
 			}
+			if call, ok := in.(*ssa.Call); ok {
+				if sf := calleeFn(call.Common()); sf != nil && a.followed[sf] {
+					creates = true
+				}
+			}
 		})
 		if !creates {
 			continue
 		}
 		nRoots++
 		args := make([]c08bbVal, len(fn.Params))
-		a.runFn(fn, args, a.initialState())
+		a.runFn(fn, args, nil, a.initialState(), true)
 	}
 	if nRoots == 0 {
 		c.Lost("no function in felix/rules creates a matchBlockBuilder")
